@@ -24,7 +24,7 @@ ASSUMPTIONS = ["(a)/(c): the polyline crossing finder (vp/ref/xgeom.py) locates 
 RULE += ' Also: Operands with a past (queried / reversed copies), exactly vertical and horizontal lines, arch-shaped and degree-elevated cubics, clockwise arcs of more than 300 degrees.'   # added after the seeded-change rounds (DESIGN.md section 10)
 CONFIGS = ['scipy']
 BUDGET = {'quick': 16000, 'thorough': 300000}
-REQUIRED = ['a:axis_parallel_line', 'a:axis_parallel_line_vs_unrotated_ellipse', 'a:pre:queried', 'a:pre:from_reversed', 'a:special:arch', 'a:special:long_arc', 'a:kept', 'a:pair:AC', 'a:pair:CA', 'a:pair:LA', 'a:pair:QQ', 'a:pair:CC', 'a:arc_sweep0', 'a:arc_sweep1', 'b:kept',
+REQUIRED = ['a:axis_parallel_line', 'a:pre:queried', 'a:pre:from_reversed', 'a:special:arch', 'a:special:long_arc', 'a:kept', 'a:pair:AC', 'a:pair:CA', 'a:pair:LA', 'a:pair:QQ', 'a:pair:CC', 'a:arc_sweep0', 'a:arc_sweep1', 'b:kept',
             'b:count1', 'b:count2', 'b:count0', 'c:kept', 'b:count3']
 CASE_TIMEOUT = 20
 TIME_LIMIT = {'quick': 250, 'thorough': 3300}
